@@ -324,16 +324,7 @@ class Parser:
         tok = stream.next_token()
         expr = self.parse_filter_expression(stream)
 
-        if isinstance(expr, FunctionExtension):
-            func = self.env.function_extensions.get(expr.name)
-            if (
-                func
-                and isinstance(func, FilterFunction)
-                and func.return_type == ExpressionType.VALUE
-            ):
-                raise JSONPathTypeError(
-                    f"result of {expr.name}() must be compared", token=tok
-                )
+        self._raise_for_uncompared_value_function(expr, tok)
 
         if isinstance(expr, FilterExpressionLiteral):
             raise JSONPathSyntaxError(
@@ -400,6 +391,7 @@ class Parser:
             raise JSONPathSyntaxError("unexpected '!'", token=stream.current)
 
         right = self.parse_filter_expression(stream, precedence=self.PRECEDENCE_PREFIX)
+        self._raise_for_uncompared_value_function(right, tok)
 
         if isinstance(right, FilterExpressionLiteral):
             raise JSONPathSyntaxError(
@@ -431,6 +423,9 @@ class Parser:
             self._raise_for_non_comparable_function(left, tok)
             self._raise_for_non_comparable_function(right, tok)
             return ComparisonExpression(tok, left, operator, right)
+
+        self._raise_for_uncompared_value_function(left, tok)
+        self._raise_for_uncompared_value_function(right, tok)
 
         if isinstance(left, FilterExpressionLiteral):
             raise JSONPathSyntaxError(
@@ -685,6 +680,21 @@ class Parser:
 
     def _is_low_surrogate(self, codepoint: int) -> bool:
         return codepoint >= 0xDC00 and codepoint <= 0xDFFF
+
+    def _raise_for_uncompared_value_function(
+        self, expr: Expression, token: Token
+    ) -> None:
+        """A function returning ValueType can not be used as a test expression."""
+        if isinstance(expr, FunctionExtension):
+            func = self.env.function_extensions.get(expr.name)
+            if (
+                func
+                and isinstance(func, FilterFunction)
+                and func.return_type == ExpressionType.VALUE
+            ):
+                raise JSONPathTypeError(
+                    f"result of {expr.name}() must be compared", token=token
+                )
 
     def _raise_for_non_comparable_function(
         self, expr: Expression, token: Token
